@@ -30,3 +30,9 @@ impl<'a, K, V> HmIter<'a, K, V> {
 pub fn hm_iter<'a, K, V>(m: &'a HashMap<K, V>) -> (r: HmIter<'a, K, V>)
     ensures r.map() == m@, forall|j: K| !#[trigger] r.seen(j),
 { unimplemented!() }
+pub mod hash_axioms {
+    use vstd::prelude::*;
+    /// String is a well-behaved HashMap key (Eq/Hash agree with value equality); vstd states this only for primitive types
+    pub broadcast axiom fn axiom_string_key_model()
+        ensures #[trigger] vstd::std_specs::hash::obeys_key_model::<String>();
+}
